@@ -15,6 +15,8 @@ import (
 func init() {
 	em := "internal/backends/compiler_wat/wir/instruction_emitter.go"
 	register(&Property{ID: "C01", Run: runC01, Mutants: []Mutant{
+		{Name: "labelled continue of a three-clause for goes to the loop head", File: "internal/ssa/builder.go", Old: "\t\tlabel._break = done\n\t\tlabel._continue = cont\n", New: "\t\tlabel._break = done\n\t\tlabel._continue = loop\n", Expect: "labelled-jump-targets"},
+		{Name: "range loop label breaks to the loop block", File: "internal/ssa/builder.go", Old: "\t\tlabel._break = done\n\t\tlabel._continue = loop\n", New: "\t\tlabel._break = loop\n\t\tlabel._continue = loop\n", Expect: "labelled-jump-targets"},
 		{Name: "named results reloaded after defers only for a bare return", File: "internal/ssa/builder.go", Old: "\t\tfn.emit(new(RunDefers))\n\t\tif fn.namedResults != nil {", New: "\t\tfn.emit(new(RunDefers))\n\t\tif fn.namedResults != nil && len(results) == 0 {", Expect: "named-results-around-defers"},
 		{Name: "deferred calls run before the return operands are stored", File: "internal/ssa/builder.go", Old: "\t\t// Run function calls deferred in this\n\t\t// function when explicitly returning from it.\n\t\tfn.emit(new(RunDefers))\n\t\tif fn.namedResults != nil {", New: "\t\tif fn.namedResults != nil {", Expect: "named-results-around-defers"},
 		{Name: "append reallocates when it exactly fills the capacity", File: "internal/backends/compiler_wat/wir/value_slice.go", Old: "\tf.Insts = append(f.Insts, x.ExtractByName(\"c\").EmitPush()...)\n\tf.Insts = append(f.Insts, wat.NewInstLe(wat.U32{}))", New: "\tf.Insts = append(f.Insts, x.ExtractByName(\"c\").EmitPush()...)\n\tf.Insts = append(f.Insts, wat.NewInstLt(wat.U32{}))", Expect: "append-in-place-threshold"},
@@ -183,6 +185,9 @@ func runC01(c *Ctx) {
 	c.Trusted = []string{"go/packages, go/types (x/tools v0.29.0)", "embedded WebAssembly instruction table", "Go conversion/operator semantics table in c01.go"}
 	p := c.Load(LoadOpt{Light: true}, "./internal/backends/compiler_wat/...", "./internal/ssa")
 	c01NamedResults(c, p, p.Pkg("internal/ssa"))
+	if sp := p.MustPkg("labelled-jump-targets", "internal/ssa"); sp != nil {
+		c01LabelTargets(c, p, sp)
+	}
 	watPk := p.MustPkg("mnemonic-by-type", "internal/backends/compiler_wat/wir/wat")
 	wir := p.MustPkg("opcode-constructor", "internal/backends/compiler_wat/wir")
 	cw := p.MustPkg("operator-lowering", "internal/backends/compiler_wat")
@@ -449,8 +454,9 @@ func runC01(c *Ctx) {
 						}
 					}
 					if op == "Shl" || op == "Shr" {
-						c.Check(shiftAdaptOK(wir.TypesInfo, arm.Body, ctorOf[op]), "shift-count-adaptation", op, loc, "count wrapped for 32-bit value/64-bit count, zero-extended for 64-bit value/32-bit count",
-							"shift arm does not distinguish the operand-width combinations with i32.wrap_i64 / i64.extend_i32_u exactly in the mixed ones")
+						adaptProblem := shiftAdaptProblem(wir, arm.Body, ctorOf[op])
+						c.Check(adaptProblem == "", "shift-count-adaptation", op, loc, "count wrapped for 32-bit value/64-bit count, zero-extended for 64-bit value/32-bit count (16 width combinations evaluated)",
+							"shift arm does not bring the count to the width of the shifted value in every operand-width combination: "+adaptProblem)
 						// Go defines shifts by counts >= the operand width (0, or the sign for signed >>); the wasm shift
 						// instructions use the count modulo the width. The arm must therefore bound the count itself:
 						// some comparison of the count (Lt/Le/Ge/Gt), a select, or a min/clamp helper has to be emitted.
@@ -755,6 +761,9 @@ func c01Conversions(c *Ctx, p *Prog, wir *packages.Package) {
 	if fd == nil {
 		return
 	}
+	// arms are read with the package's emitter helpers expanded (inline.go): a source-type switch shared by several
+	// destination arms through `insts = append(insts, m.emitToI32Signed(xt)...)` is the same table written once
+	fd = &ast.FuncDecl{Recv: fd.Recv, Name: fd.Name, Type: fd.Type, Body: InlinedBody(wir, fd)}
 	info := wir.TypesInfo
 	var outer *ast.SwitchStmt
 	for _, s := range fd.Body.List {
